@@ -215,4 +215,53 @@ def xhopLine (cur snap : HistState) (t : List String) : Option String :=
       else pure s!"ok {r1.userIn} {r2.userOut}"
   | _ => none
 
+
+/-- `H xliq ver id inc liquidity slackMode feeA(3) feeB(3) authMode`: the liquidity INSTRUCTION on the
+    current state (read-only) -/
+def xliqLine (s : HistState) (t : List String) : Option String :=
+  match t with
+  | [ver, id, inc, liq, slack, bA, mA, _fA, bB, mB, _fB, auth] => do
+    let ver ← ver.toNat?
+    let id ← id.toNat?
+    let inc ← (if inc == "1" then some true else if inc == "0" then some false else none)
+    let liq ← liq.toNat?
+    let slack ← slack.toNat?
+    let auth ← auth.toNat?
+    let fA ← parseTFee bA mA
+    let fB ← parseTFee bB mB
+    let (fA, fB) := if ver = 2 then (fA, fB) else (none, none)
+    let cap := U64_MAX / 4
+    match posGet s.positions id with
+    | none => pure "err NoSuchPosition"
+    | some _ =>
+      if auth = 2 then pure "err AccountNotSigner"
+      else if auth = 1 then pure "err MissingOrInvalidDelegate"
+      else
+        let big := U128_MAX
+        match histStep { s with vaultA := big, vaultB := big } (.modify id liq inc) with
+        | .error e => pure ("err " ++ e.name)
+        | .ok (_, outs) =>
+          let da := outs.getD 0 0
+          let db := outs.getD 1 0
+          let user : R (Nat × Nat) :=
+            if inc then
+              match includedAmount fA da with
+              | .error e => .error e
+              | .ok a =>
+                match includedAmount fB db with
+                | .error e => .error e
+                | .ok b => .ok (a.1, b.1)
+            else .ok ((excludedAmount fA da).1, (excludedAmount fB db).1)
+          match user with
+          | .error e => pure ("err " ++ e.name)
+          | .ok (ua, ub) =>
+            let limA := if slack = 1 then ua else if slack = 2 then (if inc then ua - 1 else min (ua + 1) U64_MAX) else (if inc then U64_MAX else 0)
+            let limB := if slack = 1 || slack = 2 then ub else (if inc then U64_MAX else 0)
+            if inc && (ua > limA || ub > limB) then pure "err TokenMaxExceeded"
+            else if !inc && (ua < limA || ub < limB) then pure "err TokenMinSubceeded"
+            else if inc && (ua > cap || ub > cap) then pure "err Code(1)"
+            else if !inc && (da > min s.vaultA cap || db > min s.vaultB cap) then pure "err Code(1)"
+            else pure s!"ok {ua} {ub} {da} {db}"
+  | _ => none
+
 end WP
